@@ -66,6 +66,10 @@ type inner struct {
 	L []sio.Binary `json:"l"`
 	S string       `json:"s"`
 }
+type optFiles struct {
+	Text  string       `json:"text"`
+	Files []sio.Binary `json:"files"`
+}
 type withBin struct {
 	N int        `json:"n"`
 	B sio.Binary `json:"b"`
@@ -154,6 +158,23 @@ var shapes = []shape{
 				return
 			}
 			rec(digest(w.B, w.P.L[0], w.P.L[1], w.P.L[2]))
+		}
+	}},
+	// optional attachments: the size-0 value (the first value of this type the process ever emits: sizes ascend)
+	// has none, every later one has two (seed c01i: the encoder remembered per TYPE whether a struct carries binary)
+	{"struct-with-optional-attachments", true, func(n int) ([]any, string) {
+		if n == 0 {
+			return []any{optFiles{Text: "none"}}, digest([]byte("none"))
+		}
+		a, b := fill(n/2, 15), fill(n-n/2, 16)
+		return []any{optFiles{Text: "two", Files: []sio.Binary{a, b}}}, digest([]byte("two"), a, b)
+	}, func(rec func(string)) any {
+		return func(o optFiles) {
+			parts := [][]byte{[]byte(o.Text)}
+			for _, f := range o.Files {
+				parts = append(parts, f)
+			}
+			rec(digest(parts...))
 		}
 	}},
 	{"slice-of-strings", false, func(n int) ([]any, string) {
@@ -383,7 +404,16 @@ func runCell(p *pair, c cell, sh shape) {
 		t.mu.Unlock()
 	}
 	args, want := sh.args(n)
-	emit(ev, args...)
+	// (the server's Emit panics when its arguments cannot be encoded: a verdict about this cell, not the end of the matrix)
+	emitPanic := ""
+	func() {
+		defer func() {
+			if r := recover(); r != nil {
+				emitPanic = fmt.Sprint(r)
+			}
+		}()
+		emit(ev, args...)
+	}()
 	emit("bar")
 	where := fmt.Sprintf("%s, %s, recovery=%v, shape %s, size %d (payload %d bytes), %d client(s)", c.Transport, c.Dir, c.Recovery, sh.name, c.Size, n, c.Clients)
 	key := func(what string) string {
@@ -399,6 +429,13 @@ func runCell(p *pair, c cell, sh shape) {
 			rec = ", recovery on"
 		}
 		return fmt.Sprintf("matrix: %s (%s, %s, %s%s)", what, c.Transport, c.Dir, sz, rec)
+	}
+	if emitPanic != "" {
+		if len(emitPanic) > 160 {
+			emitPanic = emitPanic[:160]
+		}
+		violate(key("Emit panics on arguments the API accepts"), where+": "+emitPanic, c)
+		return
 	}
 	if seenKeys[key("connection died instead of delivering an event within the announced limit")] {
 		return // this class of cells already has its verdict; do not kill one connection after the other
